@@ -27,7 +27,7 @@ RULE += ('; also: replies dropped by the transport, broadcasts delivered by keyw
 ASSUMPTIONS = ['the RabbitMQ transport itself is replaced by an in-process communicator that follows its observable protocol (pv/comm.py)',
                'an exception raised by a handler may reach the sender wrapped in RemoteException']
 REQUIRED = ['handlers_ran', 'twin_compared', 'replies_compared', 'announcements_checked', 'intent/pause', 'intent/play', 'intent/kill', 'intent/status',
-            'via/rpc', 'via/bcast', 'wrap/raw', 'wrap/loop', 'broadcast_faults', 'after_termination_checks', 'in_step_deliveries', 'idle_deliveries', 'idle_thread_runs', 'dropped_replies', 'recreated_terminal_checks', 'unsubscribe_faults', 'own_subscription_handles']
+            'via/rpc', 'via/bcast', 'wrap/raw', 'wrap/loop', 'broadcast_faults', 'after_termination_checks', 'in_step_deliveries', 'idle_deliveries', 'idle_thread_runs', 'dropped_replies', 'recreated_terminal_checks', 'unsubscribe_faults', 'own_subscription_handles', 'own_state_transitions']
 BOUNDS = {'quick': '6 programs, K<=2 messages (K=2 sampled 1/3), all broadcast fault points', 'thorough': '14 programs + thread-mode delivery (400 runs)'}
 MSGS = [['rpc', 'pause', 'rp'], ['rpc', 'play', None], ['rpc', 'kill', 'rk'], ['rpc', 'status', None], ['bcast', 'pause', 'bp'], ['bcast', 'play', None],
         ['bcast', 'kill', 'bk']]
@@ -195,7 +195,15 @@ def _programs(tier):
     return {k: P[k] for k in names}
 
 
+OWN_STATE_REQUESTS = ([], ['pause', 'play'], ['kill'], ['pause', 'kill'], ['pause', 'play', 'pause', 'play'])
+
+
 def gen_cases(tier, seed):
+    # a process with a state class of the application's own (labelled by the application's own enum) between CREATED and RUNNING:
+    # the transitions into and out of it are announced like any other
+    for reqs in OWN_STATE_REQUESTS:
+        for gap in (0, 1, 2):
+            yield {'kind': 'own-state', 'requests': list(reqs), 'gap': gap, 'plan': [], 'wrap': False}
     rng = plans.rng_for(seed, 'c16')
     for name, prog in sorted(_programs(tier).items()):
         n = plans.slots_of(prog)
@@ -337,7 +345,121 @@ def run_idle(case):
             'sample': {'idle_thread_message': m, 'wrap': case['wrap'], 'outcome': outcome}}
 
 
+def run_own_state(case):
+    import asyncio
+    import enum
+
+    from plumpy import process_states
+    from plumpy.base import state_machine
+
+    class AppState(enum.Enum):
+        HELD = 'held'
+
+    class Held(process_states.State):
+        LABEL = AppState.HELD
+        ALLOWED = {plumpy.ProcessState.RUNNING, plumpy.ProcessState.KILLED, plumpy.ProcessState.EXCEPTED}
+
+        def __init__(self, process, run_fn):
+            super().__init__(process)
+            self.run_fn = run_fn
+
+        async def execute(self):
+            await asyncio.sleep(0)
+            return self.create_state(plumpy.ProcessState.RUNNING, self.run_fn)
+
+    class Created(process_states.Created):
+        ALLOWED = process_states.Created.ALLOWED | {AppState.HELD}
+
+        def execute(self):
+            return self.create_state(AppState.HELD, self.run_fn)
+
+    class HeldProcess(plumpy.Process):
+        @classmethod
+        def get_state_classes(cls):
+            states = dict(super().get_state_classes())
+            states[plumpy.ProcessState.CREATED] = Created
+            states[AppState.HELD] = Held
+            return states
+
+        async def run(self):
+            await asyncio.sleep(0)
+            return plumpy.Continue(self.second)
+
+        def second(self):
+            return 7
+
+    class Recording:
+        def __init__(self):
+            self.announced = []
+
+        def add_rpc_subscriber(self, subscriber, identifier=None):
+            return identifier
+
+        def add_broadcast_subscriber(self, subscriber, identifier=None):
+            return identifier
+
+        def remove_rpc_subscriber(self, identifier):
+            pass
+
+        def remove_broadcast_subscriber(self, identifier):
+            pass
+
+        def broadcast_send(self, body, sender=None, subject=None, correlation_id=None):
+            self.announced.append([sender, subject])
+            return True
+
+    V = judges.V
+    viol = []
+    obs = {'own_state_runs': 1, 'own_state_transitions': 0}
+    loop = asyncio.new_event_loop()
+    asyncio.set_event_loop(loop)
+    incon = None
+    try:
+        comm = Recording()
+        proc = HeldProcess(pid=4242, communicator=comm, loop=loop)
+        entered = [[None, 'created']]
+        proc.add_state_event_callback(state_machine.StateEventHook.ENTERED_STATE,
+                                      lambda machine, _hook, from_state: entered.append([from_state.LABEL.value, machine.state.value]))
+
+        async def scenario():
+            task = asyncio.ensure_future(proc.step_until_terminated())
+            await asyncio.sleep(0)
+            for req in case['requests']:
+                if proc.has_terminated():
+                    break
+                getattr(proc, req)(*(['m'] if req != 'play' else []))
+                for _ in range(case['gap']):
+                    await asyncio.sleep(0)
+            for _ in range(30):
+                if proc.paused and not proc.has_terminated():
+                    proc.play()
+                if task.done():
+                    break
+                await asyncio.sleep(0)
+            if not task.done():
+                task.cancel()
+                return 'the process did not terminate'
+            return None
+
+        incon = loop.run_until_complete(asyncio.wait_for(scenario(), 5))
+        expected = [[4242, 'state_changed.%s.%s' % tuple(pair)] for pair in entered]
+        obs['own_state_transitions'] = sum(1 for a, b in entered if 'held' in (a, b))
+        if incon is None and comm.announced != expected:
+            missing = [e[1] for e in expected if e not in comm.announced]
+            viol.append(V('announcements', 'announcements:own-state:%s' % ('missing' if missing else 'other'), 'a process with a state class of its own went through %s, '
+                          'announced %s (missing %s; requests %s)' % (entered, [a[1] for a in comm.announced], missing, case['requests'])))
+    except asyncio.TimeoutError:
+        incon = 'watchdog'
+    finally:
+        asyncio.set_event_loop(None)
+        loop.close()
+    return {'viol': viol, 'obs': obs, 'inconclusive': incon, 'key': ['own-state', case['requests'], case['gap']], 'nontrivial': obs['own_state_transitions'] >= 2,
+            'sample': {'program': 'own-state', 'requests': case['requests']}}
+
+
 def run_case(case):
+    if case['kind'] == 'own-state':
+        return run_own_state(case)
     if case['kind'] == 'thread':
         return run_thread(case)
     if case['kind'] == 'idle':
